@@ -3,6 +3,7 @@ CONSTANTS
   Dev = {"StaleCounts"}
   MaxOps = 2
   OptSet = "quick"
+  Focus = "all"
   EmitReplay = FALSE
 INVARIANTS ObsInv
 CHECK_DEADLOCK FALSE
